@@ -297,28 +297,7 @@ def resume(ctx, prog, pfx):
             bad.append('%s: suspension without SAVE() of %s' % (f.loc(b.term), sorted(need - have)))
     ctx.ob(pfx + '.resume', 'every suspension of retrieve() saves the bit-stream position and records the state whose '
            'label follows it', f.loc(), not bad, '; '.join(bad[:3]) or '%d suspension points' % len(more), evals=len(more))
-    # emit(): all carried locals are loaded from *ds before the dispatch switch
-    g = prog.func('decode', 'emit')
-    Pg = Prov(prog, g)
-    swg = [i for i in g.insns() if i.op == 'switch']
-    if len(swg) != 1:
-        broken('emit(): dispatch switch not found')
-    gnames = reg_var_names(g)
-    bad = []
-    n = 0
-    for i in g.insns():
-        if i.op != 'phi':
-            continue
-        for v, src in i.extra['incoming']:
-            if src != swg[0].block.name:
-                continue
-            n += 1
-            e = strip_casts(Pg.expr(v))
-            if e[0] in ('const', 'undef', 'null'):
-                bad.append('local `%s` enters state dispatch with %s instead of a value restored from *ds (%s)' % (
-                    gnames.get(i.res, i.res), 'undef' if e[0] == 'undef' else 'a constant', g.loc(i)))
-    ctx.ob(pfx + '.resume', 'emit(): every local carried into its state dispatch is restored from the decoder state',
-           g.loc(swg[0]), n > 0 and not bad, '; '.join(sorted(set(bad))[:3]) or '%d dispatch inputs' % n, evals=n)
+    # (emit()'s resume discipline is decided by the abstract walk of lib/unrle.py: unrle_walk)
 
 
 def call_site_isolation(ctx, prog, pfx, unit, callees, allowed_globals):
